@@ -6,6 +6,8 @@ the four entry points; oracle = vf.refsem (independent of pymbolic's mappers).
 """
 from __future__ import annotations
 
+from fractions import Fraction
+
 from vf import gen, refsem
 from vf.envs import FULL_DOMAIN, MATS, QUICK_DOMAIN, SPECIAL_NAMES, Counter, base_env
 from vf.localise import localise
@@ -68,6 +70,31 @@ def run_variant(variant, expr, env):
     if variant == "evaluate":
         return evaluate(expr, env)
     return evaluate_kw(expr, **env)
+
+
+# {{{ a number class registered at run time
+
+def regconst_failure(phase, variant, spec):
+    """Fraction constants in the tree.  While Fraction is registered (after the mapper modules were
+    imported) every entry point gives the value; before the registration, and after the class has
+    been unregistered again, the constant is refused."""
+    from vf.regconst import constant_class_history
+    env = dict(base_env())
+    env.update(x=Fraction(9, 4), y=-2)
+    with constant_class_history(phase) as is_const:
+        expr = build(spec)
+        got = norm_impl_outcome(refsem.outcome(run_variant, variant, expr, dict(env)))
+    if is_const:
+        ref = refsem.outcome(refsem.evaluate, spec, dict(env))
+        if not refsem.outcomes_equal(ref, got):
+            return ("registered-constant", f"Fraction is registered: expected "
+                    f"{refsem.show_outcome(ref)} got {refsem.show_outcome(got)}")
+    elif got[0] == "ok":
+        return ("unregistered-constant-accepted", f"Fraction is not registered ({phase}) but the "
+                f"tree was evaluated to {refsem.show_outcome(got)}")
+    return None
+
+# }}}
 
 
 # {{{ kinds of environment objects
@@ -209,7 +236,9 @@ class C02(Check):
             "sums/products, and sibling subtrees that differ only in hash-colliding constants (-1 / -2, "
             "0 / 2**61-1); 6 kinds of context objects (dict, defaultdict, ChainMap, mapping proxy, "
             "UserDict, __getitem__-only) bound before / after / around the construction of the "
-            "evaluator x 3 entry points x 7 trees. A case is non-trivial when the reference semantics yields a value "
+            "evaluator x 3 entry points x 7 trees; 7 trees with Fraction constants x 4 entry points "
+            "before / while / after Fraction is a registered constant class (registered at run time, "
+            "after the mapper modules were imported). A case is non-trivial when the reference semantics yields a value "
             "(not an error) in at least one environment; distinct = distinct trees.")
     assumptions = [
         "reference semantics vf/refsem.py is the intended denotation (one plain Python operator "
@@ -235,6 +264,7 @@ class C02(Check):
             ("typed-consts", self.gen_typed_consts),
             ("hash-twins", lambda: (("d2", s) for s in gen.twin_trees())),
             ("environment-kinds", self.gen_envkinds),
+            ("registered-constant-class", self.gen_regconst),
         ]
         if tier == "thorough":
             fams.append(("nest3", lambda: (("n3", s) for _, s in
@@ -246,6 +276,20 @@ class C02(Check):
                  ("Call", V("f"), T(V("x"))), ("Sum", T(V("x"), V("zz"))),
                  ("CommonSubexpression", ("Sum", T(V("x"), V("y"))), ("none",),
                   S("pymbolic_eval")), C(3))
+
+    HALF = ("frac", 1, 2)
+    REG_TREES = (("frac", 3, 4), ("Sum", T(("Product", T(("frac", 1, 2), V("x"))), ("frac", 3, 4))),
+                 ("Power", V("x"), ("frac", 1, 2)), ("Call", V("f"), T(("frac", 1, 2), V("y"))),
+                 ("If", ("Comparison", V("x"), S("<"), ("frac", 1, 2)), ("frac", 1, 2), V("y")),
+                 ("CommonSubexpression", ("Quotient", V("x"), ("frac", 3, 4)), ("none",),
+                  S("pymbolic_eval")), ("Subscript", V("arr"), ("frac", 1, 2)))
+
+    def gen_regconst(self):
+        from vf.regconst import PHASES
+        for phase in PHASES:
+            for variant in VARIANTS:
+                for ti in range(len(self.REG_TREES)):
+                    yield ("regconst", phase, variant, ti)
 
     def gen_envkinds(self):
         for ek in ENV_KINDS:
@@ -298,6 +342,13 @@ class C02(Check):
     # -- the check ----------------------------------------------------------------------------
     def check_item(self, family, item, tier):
         r = Res()
+        if item[0] == "regconst":
+            r.evals += 1
+            r.keys.append(item)
+            f = regconst_failure(item[1], item[2], self.REG_TREES[item[3]])
+            if f:
+                r.fail(f[0], f"{f[0]}|{item[1]}|{item[2]}|{show(self.REG_TREES[item[3]])}", f[1])
+            return r
         if item[0] == "envkind":
             r.evals += 1
             r.keys.append(item)
